@@ -508,6 +508,92 @@ def r07_4(ctx):
         ctx.ob("bom:flag-never-cleared", not clears, site(b), "the start flag is never reset" if not clears else f"`{fld}` is reset in {clears}")
 
 
+def _derived_refs(b, arr):
+    """Locals that hold a reference (re-borrow / unsized view) of the array local `arr`."""
+    refs = set()
+    changed = True
+    while changed:
+        changed = False
+        for blk in b.blocks:
+            for s_ in blk["stmts"]:
+                if s_["k"] != "assign" or s_["p"]["pr"]:
+                    continue
+                rv = s_["rv"]
+                src = None
+                if rv["k"] in ("ref", "rawptr"):
+                    base = rv["p"]["l"]
+                    prk = [e["k"] for e in rv["p"]["pr"]]
+                    if (base == arr and not prk) or (base in refs and prk in ([], ["deref"])):
+                        src = base
+                elif rv["k"] in ("use", "cast") and is_place(rv["op"]) and not rv["op"]["p"]["pr"] and rv["op"]["p"]["l"] in refs:
+                    src = rv["op"]["p"]["l"]
+                if src is not None and s_["p"]["l"] not in refs:
+                    refs.add(s_["p"]["l"])
+                    changed = True
+    return refs
+
+
+@rule("R07.7", 1, "a character encoded into a scratch array is emitted only up to its encoded length: every slice of the scratch array ends at encode_utf8(..).len() (or at a minimum with it)", ["C07"])
+def r07_7(ctx):
+    lib = ctx.lib
+    n = 0
+    for b in lib.bodies:
+        arrays = [l for l in range(b.nargs + 1, len(b.raw["locals"])) if b.local_ty(l).startswith("[u8; ")]
+        for bb, t in b.calls():
+            f = fn_of(t) or {}
+            if f.get("name") != "encode_utf8" or "char" not in f.get("def", "") or len(t["args"]) < 2 or not is_place(t["args"][1]):
+                continue
+            arr = None
+            for a_ in arrays:
+                if t["args"][1]["p"]["l"] in _derived_refs(b, a_):
+                    arr = a_
+            if arr is None:
+                continue  # encoded straight into the caller's buffer
+            n += 1
+            refs = _derived_refs(b, arr)
+            # locals holding the encoded length
+            lens = set()
+            for lb, lt in b.calls():
+                lf = fn_of(lt) or {}
+                if lf.get("name") == "len" and lt["args"] and not lt["dest"]["pr"]:
+                    a0 = trace(b, lt["args"][0])
+                    if a0.origin and a0.origin[0] == "call" and a0.origin[2] is t:
+                        lens.add(lt["dest"]["l"])
+
+            def bounded(op, depth=0):
+                """op is the encoded length or min(encoded length, _)."""
+                if not is_place(op) or depth > 4:
+                    return False
+                tr_ = trace(b, op)
+                if tr_.origin and tr_.origin[0] == "call" and all(s_[0] == "use" for s_ in tr_.steps):
+                    if not tr_.origin[2]["dest"]["pr"] and tr_.origin[2]["dest"]["l"] in lens:
+                        return True
+                    if (fn_of(tr_.origin[2]) or {}).get("def") in ("std::cmp::min", "std::cmp::Ord::min"):
+                        return any(bounded(a, depth + 1) for a in tr_.origin[2]["args"])
+                return False
+
+            k = 0
+            for ub, ut in b.calls():
+                if ut is t or not any(is_place(a) and not a["p"]["pr"] and a["p"]["l"] in refs for a in ut["args"]):
+                    continue
+                uf = fn_of(ut) or {}
+                k += 1
+                ok = False
+                det = f"the scratch array is handed to `{uf.get('def')}` whole: bytes beyond the encoded character (zeros) can be emitted as text"
+                if uf.get("trait") in ("std::ops::Index", "std::ops::IndexMut") and len(ut["args"]) == 2:
+                    rg = trace(b, ut["args"][1])
+                    if rg.origin and rg.origin[0] == "agg":
+                        adt_ = rg.origin[1]["rv"].get("adt", "")
+                        ops = rg.origin[1]["rv"]["ops"]
+                        if adt_ == "std::ops::RangeTo" and ops:
+                            ok = bounded(ops[0])
+                        elif adt_ == "std::ops::Range" and len(ops) == 2:
+                            ok = bounded(ops[1])
+                        det = f"{adt_.rsplit('::', 1)[-1]} slice of the scratch array " + ("ends at the encoded length" if ok else "is not bounded by the encoded length: bytes beyond the character (zeros) can be emitted as text")
+                ctx.ob(f"scratch-slice:{b.name}:{k}", ok, site(b, ub), det)
+    ctx.ob("scratch-encodes", n >= 1, "lib", f"{n} encode_utf8 call(s) into a local scratch array")
+
+
 @rule("R07.6", 2, "the encoding detector always sees the first 4 bytes (or the whole input if shorter): whole slice, prefix(N>=4), or a buffer filled by copying from take(N>=4)", ["C07", "C02"])
 def r07_6(ctx):
     lib = ctx.lib
